@@ -12,6 +12,7 @@ import ZlModel.Codec
 import ZlModel.Ip
 import ZlModel.Rsa
 import ZlModel.Tld
+import ZlModel.TldGen
 import ZlModel.Config
 import ZlModel.Cli
 open Zl Zl.Proto
@@ -342,6 +343,26 @@ def opCliSum (fields : List String) : String :=
     ",".intercalate ((summaryTable (Generated.statusLabelTable.map (·.2)) results).map (fun p => toString p.1 ++ ":" ++ toString p.2))
   | _ => "bad-op"
 
+def hexPlain (bs : List Nat) : String := String.ofList (bs.flatMap (fun b => [hexDigit (b / 16), hexDigit (b % 16)]))
+
+def parseGEntries (s : String) : List GEntry :=
+  (splitList s ",").map (fun e => match e.splitOn "|" with
+    | [n, d, r] => ⟨(unhexBytes n).getD [], (unhexBytes d).getD [], (unhexBytes r).getD []⟩
+    | _ => ⟨[], [], []⟩)
+
+def showGEntries (es : List GEntry) : String :=
+  if es.isEmpty then "-" else ",".intercalate (es.map (fun e => hexPlain e.name ++ "|" ++ hexPlain e.deleg ++ "|" ++ hexPlain e.rem))
+
+def opTldGen (kind : String) (fields : List String) : String :=
+  match kind, fields with
+  | "val", [es] => if validateG (parseGEntries es) then "ok" else "err"
+  | "del", [es] => showGEntries (delegatedG (parseGEntries es))
+  | "gen", [es, ls] =>
+    match generate (parseGEntries es) ((splitList ls ",").map (fun h => (unhexBytes h).getD [])) with
+    | none => "err"
+    | some rows => showGEntries (sortRows rows)
+  | _, _ => "bad-op"
+
 def step (line : String) : String :=
   match line.splitOn "\t" with
   | "fw" :: rest => opFw rest
@@ -356,6 +377,9 @@ def step (line : String) : String :=
   | "tld" :: rest => opTld "tld" rest
   | "tldin" :: rest => opTld "tldin" rest
   | "tldlint" :: rest => opTld "tldlint" rest
+  | "val" :: rest => opTldGen "val" rest
+  | "del" :: rest => opTldGen "del" rest
+  | "gen" :: rest => opTldGen "gen" rest
   | "cfg" :: rest => opCfg rest
   | "cfgseq" :: rest => opCfgSeq rest
   | "clidisp" :: rest => opCliDisp rest
